@@ -473,7 +473,15 @@ class Run:
                 for d, k in zip(free, ix): full[d] = k
                 G.cells[tuple(full)] = v.cells[ix]
             return
-        for ix in Grid(tuple(G.shape[d] for d in free)).indices():
+        want_shape = tuple(G.shape[d] for d in free)
+        if isinstance(v, PV) and all(isinstance(l, Grid) and l.shape == want_shape for _, l in pv_leaves(v)):
+            # a helper returned one grid per path (e.g. solve vs pseudo-inverse branch): the store is cell-wise, each cell a decision tree
+            for ix in Grid(want_shape).indices():
+                full = list(lead)
+                for d, k in zip(free, ix): full[d] = k
+                G.cells[tuple(full)] = pv_apply(lambda g_, ix=ix: g_.cells[ix] if isinstance(g_, Grid) else g_, v)
+            return
+        for ix in Grid(want_shape).indices():
             full = list(lead)
             for d, k in zip(free, ix): full[d] = k
             G.cells[tuple(full)] = v if is_opaque(v) else Opaque("shape mismatch in grid store")
